@@ -158,6 +158,8 @@ M = [
   "            color_padded_region.pad(6)", "            color_padded_region.pad(5)"),
  ("c06_epf_step0_runs_for_two_iters", "C06", "pad-below-reach:iters2", "crates/jxl-render/src/filter/epf.rs",
   "    // Step 0\n    if iters == 3 {", "    // Step 0\n    if iters >= 2 {"),
+ ("c01_gamma_not_validated", "C01", "div:TransferFunction.g", "crates/jxl-image/src/color.rs",
+  "            if gamma > 10_000_000 || (gamma as u64) * 8192 < 10_000_000 {\n                return Err(Error::ValidationFailed(\"Invalid gamma value\"));\n            }\n", ""),
  ("c01_cluster_map_decoder_two_dists", "C01", "bound-lost", "crates/jxl-coding/src/lib.rs",
   "            Decoder::parse(bitstream, 1)?\n        };\n        decoder.begin(bitstream)?;", "            Decoder::parse(bitstream, num_dist.min(2))?\n        };\n        decoder.begin(bitstream)?;"),
 ]
